@@ -30,6 +30,9 @@ PLAN = {
     "C18-1": ["C18", "C15"], "C18-2": ["C18", "C11"],
     "C19-1": ["C19"], "C19-2": ["C19", "C10"],
     "C20-1": ["C20"], "C20-2": ["C20", "C18"],
+    # third round
+    "C05-3": ["C05", "C16"], "C10-3": ["C10", "C12", "C17"], "C11-3": ["C11", "C03"], "C15-3": ["C15", "C06"],
+    "C19-3": ["C19", "C05"],
 }
 
 
